@@ -351,7 +351,10 @@ SetItemWithOp(h, c, key, op, v) ==
               IF op.t # "str" \/ ~(op.s \in {<<43, 61>>, <<45, 61>>, <<42, 61>>, <<47, 61>>}) THEN R(cp.h, ParserErr)
               ELSE LET opn == CASE op.s = <<43, 61>> -> "+=" [] op.s = <<45, 61>> -> "-=" [] op.s = <<42, 61>> -> "*=" [] OTHER -> "/="
                        cur == NativeGetItem(cp.h, c, k2) IN
-                   IF ~IsVal(cur) THEN R(cp.h, cur)
+                   \* reading the missing key / index: normatively a ParserError like a plain read (property C16);
+                   \* the shipped code lets the raw KeyError / IndexError escape (deviation SetWithOpLookupError)
+                   IF IsExc(cur) /\ cur.name \in {"KeyError", "IndexError"} /\ ~Dev("SetWithOpLookupError") THEN R(cp.h, ParserErr)
+                   ELSE IF ~IsVal(cur) THEN R(cp.h, cur)
                    ELSE LET ip == InplaceApply(cp.h, opn, cur, cp.v) IN
                         IF ~IsVal(ip.r) THEN R(ip.h, ip.r)
                         ELSE LET st == NativeSetItem(ip.h, c, k2, ip.r) IN
